@@ -61,13 +61,14 @@ InDomain(s, e) == /\ e.call = "edit" /\ e.outcome = "ok" /\ e.law /\ e.tk.ok
 
 (* (G) events replayed from the case table of TokenGen.tla carry the lines the  *)
 (* reference editor expects (e.g.expect, concretised with the same line table) *)
-(* RefEdit.agree: the non-blank lines of the result are exactly those; for an  *)
+(* RefEdit.agree: the non-blank lines of the result are exactly those (header  *)
+(* and footer of the block the list is embedded in included); for an           *)
 (* insertion - whose position among the comments the documentation leaves open *)
 (* - the same with the new line taken out                                       *)
 NonBlankIds(seq) == SelectSeq(seq, LAMBDA x : ~Batch.ltab[x].b)
 Without(seq, x)  == SelectSeq(seq, LAMBDA y : y # x)
 RefAgree(e) ==
-  LET got == NonBlankIds(Streams[e.tk.post].ln)
+  LET got == NonBlankIds(e.g.got)          \* the lines of the result, indentation stripped (like e.g.expect)
       exp == NonBlankIds(e.g.expect)
   IN IF e.g.op = "insert" THEN Without(got, e.g.newline) = Without(exp, e.g.newline) /\ Len(got) = Len(exp)
      ELSE got = exp
